@@ -183,6 +183,7 @@ SORT_FUNCS = {
     'sort_by': (r'list::functional::sort_by::get::\{closure#0\}::<impl at [^>]*>::get$', r'::sort_by::<|::sort_by_key::<|::sort_by_cached_key::<', r'sort_unstable'),
     'sort_by_values': (r'sort_by_values::get::\{closure#0\}::<impl at [^>]*>::get$', r'IndexMap::<.*>::sort_by::<|::sort_by::<|sort_by_cached_key', r'sort_unstable'),
     'sort_by_values_by': (r'sort_by_values_by::get::\{closure#0\}::<impl at [^>]*>::get$', r'IndexMap::<.*>::sort_by::<|::sort_by::<|sort_by_cached_key', r'sort_unstable'),
+    'sort_unique': (r'sort_unique::get::\{closure#0\}::<impl at [^>]*>::get$', r'::dedup$|::dedup_by', r'BTreeSet|HashSet|BTreeMap'),
     'sort_by_keys': (r'sort_by_keys::get::\{closure#0\}::<impl at [^>]*>::get$', r'sort_keys|sort_by::<|sort_unstable_keys', r'^$'),
 }
 
@@ -191,7 +192,7 @@ def sort_functions(ctx):
     """C07.d (thin, labelled as such): the sort functions delegate to std / indexmap *stable* sorts with the value order;
     this pins which contract jawk relies on by reading the call targets in the closures' MIR"""
     run = ctx.run
-    fam = run.family('sort.functions', 'sort / sort_by / sort_by_values(_by) / sort_by_keys call a stable sort routine (ties keep arrival order); read off the call targets in the MIR - a structural fact, no solver involved')
+    fam = run.family('sort.functions', 'sort / sort_by / sort_by_values(_by) / sort_by_keys call a stable sort routine (ties keep arrival order) and sort_unique removes duplicates with == (dedup), not through an ordered set; read off the call targets in the MIR - a structural fact, no solver involved')
     fam.need_witness = False
     run.assume('std slice::sort / sort_by and indexmap sort_by / sort_keys are stable sorts returning a sorted permutation (library contract)')
     for name, (rx, must, mustnot) in SORT_FUNCS.items():
